@@ -264,7 +264,7 @@ type Session struct {
 	Steps []Step `json:"steps"`
 }
 
-var callFaults = []string{"", "", "", "error-body", "wrong-id", "dup", "wrong-type", "bad-type", "corrupt", "corrupt", "len-short", "len-long", "len-zero", "len-over", "trunc-close", "stall", "stall-write", "garbage", "coalesce", "empty-body", "two-bodies", "id-max", "trickle-large", "close-before"}
+var callFaults = []string{"", "", "", "error-body", "wrong-id", "dup", "dup-many", "wrong-type", "bad-type", "corrupt", "corrupt", "len-short", "len-long", "len-zero", "len-over", "trunc-close", "stall", "stall-write", "garbage", "coalesce", "empty-body", "two-bodies", "id-max", "trickle-large", "close-before"}
 var reqFaults = []string{"", "", "", "dup-id", "corrupt", "corrupt", "unknown-body", "two-bodies", "handler-error", "handler-block", "len-over", "len-zero", "garbage", "trunc-close", "burst"}
 var noiseKinds = []string{"response-without-request", "bad-type", "zero-type", "response-id-max", "error-without-request"}
 var hsFaults = []string{"", "", "", "", "", "", "garbage-before", "wrong-body", "wrong-version", "error-body", "stall", "early-request", "close", "corrupt", "trunc", "len-over", "dup", "wrong-id"}
@@ -1232,6 +1232,16 @@ func (x *session) stepCall(i int, stp Step) *core.Violation {
 		expect = "ok"
 	case "dup":
 		x.deliver(append(append([]byte{}, good...), good...), stp.Split)
+		expect = "ok"
+	case "dup-many":
+		// Many response frames with the same id, back to back in one piece: their handlers run
+		// concurrently with the caller that consumes the first one.  All but one must be dropped
+		// without leaving a handler blocked (Close must still return).
+		var many []byte
+		for k := 0; k < 8+stp.N%33; k++ {
+			many = append(many, good...)
+		}
+		x.deliver(many, 0)
 		expect = "ok"
 	case "wrong-type":
 		// The peer sends a request carrying the same id instead of the response, then the response.
